@@ -1,13 +1,13 @@
 SPECIFICATION Spec
 CONSTANTS MaxDepth = 3
-  Families <- FamT_F2
+  Families <- FamNoSkip2
   StoreByCopy = TRUE
   TailKeepsSets = TRUE
   SplitContinues = TRUE
-  SkipEmpty = TRUE
+  SkipEmpty = FALSE
   SplitCachesExport = FALSE
   SrcFRepass = TRUE
   MFRunCopies = TRUE
   AlterApplied = FALSE
-INVARIANT Emitted
+INVARIANT SeenIsExpected
 CHECK_DEADLOCK FALSE
